@@ -1,4 +1,5 @@
 import CssVerif.Lemmas.Struct
+import CssVerif.Lemmas.StructMedia
 /-!
 # C04 — syntax errors are contained: only the malformed construct is dropped
 
@@ -296,6 +297,133 @@ theorem complete_style_rule (O : Oracle) (ns : List (Cps × Cps)) (sel d₁ d₂
 example : SelShape [Ex.idt "a"] := ⟨by decide, by decide, by decide, by decide, by decide⟩
 example : nest [] ([Ex.idt "color", Ex.colon, Ex.idt "red", Ex.semi] ++ [Ex.idt "top", Ex.colon, Ex.fn "f("])
     = some [K.paren] := by decide
+
+/-! ## T4.4 inside `@media`, at any nesting depth
+
+`mediaRules O ns ts`: the rules the token list `ts` yields as content of an `@media` block (the loop of
+`cssmediarule.py:163-245`; nested `@media` rules are parsed by `mediaRule` with enough fuel, which by
+`media_fuel_irrelevant` is the same as any larger amount).  `MediaUnit` / `MediaSeq`: complete constructs of
+such a block.  `MqShape mq`: the media query part (balanced, no brace, no EOF, no STRING — the named form
+`@media "name" {` is left to the correspondence —, no `;` `}` at depth 0). -/
+
+/-- **Locality of the `@media` block**: after complete units the block parser is back in its start state,
+whatever follows (the analogue of `decls_local` / `sheet_local` one level down). -/
+theorem media_block_local (O : Oracle) (ns : List (Cps × Cps)) (m₁ x : List Tok) (hm : MediaSeq m₁) :
+    mediaRules O ns (m₁ ++ x) = mediaRules O ns m₁ ++ mediaRules O ns x :=
+  mediaRules_append O ns m₁ x hm
+
+/-- the complete `@media` rule, for comparison: the statement `@media mq { m₁ m₂ }` appends one media rule
+whose rules are those of `m₁` followed by those of `m₂` (or the stub `@media all {}` when the media query
+is rejected). -/
+theorem complete_media_rule (O : Oracle) (M : List Cps) (st : SheetSt) (at_ : Tok) (mq : List Tok) (lb : Tok)
+    (m₁ m₂ : List Tok) (rb : Tok)
+    (hat : at_.typ = .mediaSym) (hs : MqShape mq) (hl : lb.val = vLBrace) (hlt : lb.typ = .char)
+    (hm : MediaSeq m₁) (hd : Balanced (m₁ ++ m₂)) (hde : noEof (m₁ ++ m₂) = true)
+    (hr : rb.val = vRBrace) (hrt : rb.typ ≠ .eof) :
+    (stmtEffect O M st at_ (at_ :: (mq ++ lb :: ((m₁ ++ m₂) ++ [rb])))).rules =
+      st.rules ++ [if O.mediaOk mq then
+        Rule.media (some (mq, none)) (mediaRules O st.nsmap m₁ ++ mediaRules O st.nsmap m₂)
+        else Rule.media none []] := by
+  rw [stmtEffect_complete_media O M st at_ mq lb (m₁ ++ m₂) rb hat hs hl hlt hd hde hr hrt,
+    mediaRules_append O st.nsmap m₁ m₂ hm]
+
+/-- T4.4 (an `@media` rule cut off inside its block): after complete statements `s₁` comes `@media mq {`,
+complete units `m₁` of the block, an unfinished rest `junk` that never closes the block, and EOF.  The
+sheet has the rules of `s₁` and then the media rule, closed at EOF, with exactly the rules of `m₁`
+followed by what the unfinished rest yields. -/
+theorem truncated_media_rule (O : Oracle) (M : List Cps) (s₁ : List Tok) (at_ : Tok) (mq : List Tok)
+    (lb : Tok) (m₁ junk : List Tok) (eof : Tok) (stk : List K)
+    (hs₁ : StmtSeq s₁) (hat : at_.typ = .mediaSym) (hv : normalize at_.val = atMedia) (hs : MqShape mq)
+    (hl : lb.val = vLBrace) (hlt : lb.typ = .char) (hm : MediaSeq m₁)
+    (hx : nest [] (m₁ ++ junk) = some stk) (hxe : noEof (m₁ ++ junk) = true) (he : eof.typ = .eof) :
+    (sheetLoop O M {} (s₁ ++ at_ :: (mq ++ lb :: ((m₁ ++ junk) ++ [eof])))).rules =
+      (sheetLoop O M {} s₁).rules ++
+        [if O.mediaOk mq then
+          Rule.media (some (mq, none))
+            (mediaRules O (sheetLoop O M {} s₁).nsmap m₁
+              ++ mediaRules O (sheetLoop O M {} s₁).nsmap (junk ++ [eof]))
+         else Rule.media none []] := by
+  rw [sheetLoop_append O M s₁ _ hs₁,
+    sheetLoop_open_media O M _ at_ mq lb (m₁ ++ junk) eof stk hat hv hs hl hlt hx hxe he,
+    List.append_assoc, mediaRules_append O _ m₁ (junk ++ [eof]) hm]
+
+/-- T4.4 (a style rule inside an `@media` block, cut off inside its declaration block): the content
+`sel { d₁ junk EOF` of a media block yields — iff the selector is accepted — the style rule with exactly the
+declarations of `d₁` followed by what the unfinished rest yields. -/
+theorem truncated_style_in_media (O : Oracle) (ns : List (Cps × Cps)) (t : Tok) (sel' : List Tok) (lb : Tok)
+    (d₁ junk : List Tok) (eof : Tok) (stk : List K)
+    (ht : startsMediaRuleset t = true) (hsel : SelShape (t :: sel'))
+    (hq : Quiet .default [] (t :: sel') = true) (hl : lb.val = vLBrace) (hlt : lb.typ ≠ .eof)
+    (hd : DeclSeq d₁) (hx : nest [] (d₁ ++ junk) = some stk) (hxe : noEof (d₁ ++ junk) = true)
+    (he : eof.typ = .eof) :
+    mediaRules O ns (t :: (sel' ++ lb :: ((d₁ ++ junk) ++ [eof]))) =
+      if O.selOk ns (t :: sel') then
+        [Rule.style ns (t :: sel') (parseDecls O d₁ ++ parseDecls O (junk ++ [eof]))] else [] := by
+  rw [mediaRules_open_style O ns t sel' lb (d₁ ++ junk) eof stk ht hsel hq hl hlt hx hxe he,
+    List.append_assoc, parseDecls_append O d₁ (junk ++ [eof]) hd]
+
+/-- T4.4 (`@media` inside `@media`, cut off inside the inner block): the content `@media mq { m₁ junk EOF` of
+a media block yields the inner media rule, closed at EOF, with the rules of `m₁` and what the rest yields. -/
+theorem truncated_media_in_media (O : Oracle) (ns : List (Cps × Cps)) (at_ : Tok) (mq : List Tok) (lb : Tok)
+    (m₁ junk : List Tok) (eof : Tok) (stk : List K)
+    (hat : at_.typ = .mediaSym) (hv : normalize at_.val = atMedia) (hs : MqShape mq)
+    (hl : lb.val = vLBrace) (hlt : lb.typ = .char) (hm : MediaSeq m₁)
+    (hx : nest [] (m₁ ++ junk) = some stk) (hxe : noEof (m₁ ++ junk) = true) (he : eof.typ = .eof) :
+    mediaRules O ns (at_ :: (mq ++ lb :: ((m₁ ++ junk) ++ [eof]))) =
+      [if O.mediaOk mq then
+        Rule.media (some (mq, none)) (mediaRules O ns m₁ ++ mediaRules O ns (junk ++ [eof]))
+       else Rule.media none []] := by
+  rw [mediaRules_open_media O ns at_ mq lb (m₁ ++ junk) eof stk hat hv hs hl hlt hx hxe he,
+    List.append_assoc, mediaRules_append O ns m₁ (junk ++ [eof]) hm]
+
+/-- **T4.4 at ANY nesting depth.**  `fs` lists the `@media` rules that are open at the cut, outermost
+first; each frame `F` has the complete units `F.done` that stand before it in the enclosing block and its
+head `@media F.mq {` (`MFrame.Ok`).  `openToks fs junk` is the token list (`junk`: the unfinished content of
+the innermost block), `openRules O ns fs inner` the rule list: at every level the rules of the complete
+units, unchanged, then the open media rule closed at EOF containing, recursively, the same for the next
+level.  Together with `truncated_style_in_media` (for `junk = sel { d₁ junk'`) and `media_block_local`
+(for `junk = m₁ ++ junk'`) this is the truncation clause of the property for every nesting depth. -/
+theorem truncation_nested_media (O : Oracle) (ns : List (Cps × Cps)) (fs : List MFrame) (junk : List Tok)
+    (eof : Tok) (stk : List K)
+    (hf : ∀ F ∈ fs, F.Ok) (hj : nest [] junk = some stk) (hje : noEof junk = true) (he : eof.typ = .eof) :
+    mediaRules O ns (openToks fs junk ++ [eof]) = openRules O ns fs (mediaRules O ns (junk ++ [eof])) :=
+  mediaRules_open O ns fs junk eof stk hf hj hje he
+
+/-- … and from the sheet level: complete statements `s₁`, an `@media` rule open at the cut, inside it the
+frames `fs`, innermost the unfinished `junk`. -/
+theorem truncation_nested (O : Oracle) (M : List Cps) (s₁ : List Tok) (at_ : Tok) (mq : List Tok) (lb : Tok)
+    (fs : List MFrame) (junk : List Tok) (eof : Tok) (stk : List K)
+    (hs₁ : StmtSeq s₁) (hat : at_.typ = .mediaSym) (hv : normalize at_.val = atMedia) (hs : MqShape mq)
+    (hl : lb.val = vLBrace) (hlt : lb.typ = .char)
+    (hf : ∀ F ∈ fs, F.Ok) (hj : nest [] junk = some stk) (hje : noEof junk = true) (he : eof.typ = .eof) :
+    (sheetLoop O M {} (s₁ ++ at_ :: (mq ++ lb :: (openToks fs junk ++ [eof])))).rules =
+      (sheetLoop O M {} s₁).rules ++
+        [if O.mediaOk mq then
+          Rule.media (some (mq, none))
+            (openRules O (sheetLoop O M {} s₁).nsmap fs
+              (mediaRules O (sheetLoop O M {} s₁).nsmap (junk ++ [eof])))
+         else Rule.media none []] := by
+  obtain ⟨s, hn, hne⟩ := openToks_nest fs junk stk hf hj hje
+  rw [sheetLoop_append O M s₁ _ hs₁,
+    sheetLoop_open_media O M _ at_ mq lb (openToks fs junk) eof s hat hv hs hl hlt hn hne he,
+    mediaRules_open O _ fs junk eof stk hf hj hje he]
+
+-- non-vacuity: the frame `a{} @media print{` (one complete unit `a{}`, then the head of an open rule) …
+example : MFrame.Ok ⟨[Ex.idt "a", Ex.lbrace, Ex.rbrace], ⟨.mediaSym, cps "@media", 0⟩,
+    [Ex.sp, Ex.idt "print"], Ex.lbrace⟩ :=
+  { seq := MediaSeq.single (MediaUnit.stmt (Ex.idt "a") [Ex.lbrace] Ex.rbrace [K.brace]
+      (by decide) (by decide) (by decide) (by decide) (by decide) (by decide) (by decide))
+    bal := by decide, ne := by decide, atT := rfl, atV := by decide
+    mq := ⟨by decide, by decide, by decide, by decide, by decide⟩, lbV := rfl, lbT := rfl }
+-- … the at-keyword may be spelled with escapes / upper case (`@\MEDIA`) …
+example : normalize (cps "@\\MEDIA") = atMedia := by decide
+-- … and an unfinished innermost content `b{c:d;e` (selector, `{`, one complete declaration, a started one)
+example : nest [] [Ex.idt "b", Ex.lbrace, Ex.idt "c", Ex.colon, Ex.idt "d", Ex.semi, Ex.idt "e"] = some [K.brace]
+    ∧ startsMediaRuleset (Ex.idt "b") = true ∧ SelShape [Ex.idt "b"] :=
+  ⟨by decide, by decide, ⟨by decide, by decide, by decide, by decide, by decide⟩⟩
+-- two open frames: the token list is `a{} @media print{ a{} @media print{ b{c:d;e`
+example : (openToks [⟨[Ex.idt "a", Ex.lbrace, Ex.rbrace], ⟨.mediaSym, cps "@media", 0⟩, [Ex.sp, Ex.idt "print"], Ex.lbrace⟩,
+      ⟨[], ⟨.mediaSym, cps "@media", 0⟩, [], Ex.lbrace⟩] [Ex.idt "b"]).length = 10 := by decide
 
 /-! ## the model's only fuel (nesting depth of `@media` in `@media`) never runs out -/
 
